@@ -23,10 +23,11 @@ HARNESSES = {
     "zone_conf_fast": {"srcs": ["src/harness/zone_conf.cc"], "variant": "plain"},
 }
 
+HARNESSES["fixed_posix"] = {"srcs": ["src/harness/fixed_posix.cc"], "variant": "asan"}
 HARNESSES["civil_conf"] = {"srcs": ["src/harness/civil_conf.cc"], "variant": "asan"}
 
 SETUP_VARIANTS = ["asan", "plain"]
-SETUP_HARNESSES = ["zone_conf", "civil_conf"]
+SETUP_HARNESSES = ["zone_conf", "civil_conf", "fixed_posix"]
 
 E1_LEVEL_NOTE = ("Trusted base: the reference model in /verif/src/common (128-bit calendar, RFC 9636 TZif reader, "
                  "POSIX TZ evaluator - written from the specifications, self-checked by a brute-force day walk), "
@@ -115,7 +116,7 @@ def mk_civil(pid, title, rule, text, need):
 
 
 CHECKS["C04"] = mk_civil("C04", "civil-time construction normalizes exactly",
-    "(a) every day of 2000-2399 x 3 times of day x complete product of per-field carries {0,+1,-1} on seconds/minutes/hours/months and month-shifts {0,1,-1} of the day field (mathematical value unchanged); (b) a reduced base set (month ends of the century/4-year boundaries) x carries {0,+-1,+-2,+-1000003[,+-2^31,+-97]}^4 x month shifts {0,+-1,13,-14}; (c) complete product of the 64-bit boundary alphabet (19 values quick / 26 thorough)^6 restricted to the stated representability bound; class = which generator produced the tuple; all six alignments and all cross-alignment conversions on a fixed subset",
+    "(a) every day of 2000-2399 x 3 times of day x complete product of per-field carries {0,+1,-1} on seconds/minutes/hours/months and month-shifts {0,1,-1,-12,12} of the day field (so the day field lands on 0, +-28..31, +-365/366 +- 1) (mathematical value unchanged); (b) a reduced base set (month ends of the century/4-year boundaries) x carries {0,+-1,+-2,+-1000003[,+-2^31,+-97]}^4 x month shifts {0,+-1,+-12,13,-14,-48,4800}; (c) complete product of the 64-bit boundary alphabet (22 values quick / 29 thorough, incl. -365, -366, +-146097)^6 restricted to the stated representability bound; class = which generator produced the tuple; all six alignments and all cross-alignment conversions on a fixed subset",
     "Every tuple is constructed in the real library (UBSan+ASan build) and compared with the 128-bit reference value; accessor ranges asserted; alignments and cross-alignment conversions compared with field truncation.",
     ["C04:cycle-small", "C04:cycle-big", "C04:boundary-product"])
 CHECKS["C05"] = mk_civil("C05", "civil arithmetic and difference are exact inverses",
@@ -126,6 +127,34 @@ CHECKS["C17"] = mk_civil("C17", "weekday / yearday / next / prev weekday",
     "all 146097 days of 2000-2399 x {get_weekday, get_yearday} and x 7 weekdays x {next_weekday, prev_weekday}, replicated at eras {0, -6, max, min [, -5, +1, +-1e3, +-1e9]} plus every day of years {INT64_MIN, INT64_MIN+1, INT64_MAX-1, INT64_MAX, -400..400 selected}",
     "Exhaustive over the Gregorian cycle: weekday from the 128-bit day number anchored at 1970-01-01 = Thursday (successor law checked along the enumeration), year-day by subtraction, next/prev = unique day within 1..7 days.",
     ["C17:era0:leap", "C17:era0:common", "C17:era-max", "C17:era-min", "C17:special-years"])
+
+
+def mk_simple(pid, harness, title, rule, text, need, level_note, engine="E1", min_eval=10000, technique=None):
+    def vac(res, tier):
+        missing = [c for c in need if not any(k.startswith(c) for k in res["classes"])]
+        if missing:
+            return "behaviour classes never hit: " + ", ".join(missing)
+        if res["counters"].get("evaluations", 0) < min_eval:
+            return "too few evaluations"
+        return None
+    return {
+        "title": title, "steps": [{"harness": harness, "args": []}], "level": "model_checking", "engine": engine,
+        "technique": technique or "bounded-exhaustive conformance checking against an executable reference model (complete enumeration of the stated finite domain)",
+        "rule": rule, "design_ref": "DESIGN.md 3/" + pid, "text": text, "level_note": level_note,
+        "assumptions": [], "vacuity": vac, "budget": {"quick": 240, "thorough": 3000},
+    }
+
+
+CHECKS["C15"] = mk_simple("C15", "fixed_posix", "fixed-offset zones and names",
+    "every integer offset in [-90000, 90000] (180001 values, exhaustive) x {ToName, ToAbbr, FromName(ToName), fixed_time_zone, load_time_zone(name) with a counting data source} x instants {min,0,max} (all 9 of {min,-2^59,-2^31,-1,0,1,2^31,2^59,max} for |o|<=61 or >=86390; everywhere in thorough); names: canonical names of 25 offsets x every single edit (delete/replace/insert) over 13 symbols incl. NUL and 0xff, all pairs of digit-position edits over {0,5,6,9,NUL,:}, and 30 literals; class = sign/precision class of the offset, or edit kind x accept/reject",
+    "Closed-form reference for name/abbreviation/offset and lookup result; every name string is decided by the reference recogniser; loads of fixed names must not touch the data source.",
+    ["C15:neg-with-seconds", "C15:pos-with-minutes", "C15:zero", "C15:beyond-24h", "C15:name:replace:reject", "C15:name:replace:accept", "C15:name:literal"],
+    "Trusted base: ref_fixed.h (30 lines, written from the statement), ref_civil.h.", min_eval=1000000)
+CHECKS["C16"] = mk_simple("C16", "fixed_posix", "POSIX TZ strings",
+    "(a) grammar sentences: every value of every part alphabet (abbreviation forms, offsets = sign x hours x minutes x seconds, dst abbreviation x dst offset, date forms incl. out-of-range and truncated, time forms incl. +-167/168) with the other parts at two settings, plus structural variants (dropped rule, dropped field, extra field, trailing bytes); thorough adds pairwise products; (b) every single edit (delete / replace / insert over 14 symbols, NUL, 0xff) of 200 (600) accepted sentences; (c) ALL strings of length <= 5 (6) over the 14-symbol alphabet; each string parsed twice into result structs pre-filled with 0x00 and 0xA5; (d) end-to-end as the footer of a generated TZif file; class = generator x accept-std/accept-dst/reject as decided by the reference",
+    "Accept/reject must agree with the reference recogniser; on acceptance every meaningful field must equal the reference and be independent of the pre-fill; end to end an invalid footer must make the load fail (leaving UTC) and a valid well-formed one must load and follow the rule.",
+    ["C16:sentence:accept-dst", "C16:sentence:accept-std", "C16:sentence:reject", "C16:replace:reject", "C16:delete:accept-dst", "C16:allstrings:accept-std", "C16:e2e:dst", "C16:e2e:reject"],
+    "Trusted base: ref_posix.h recursive-descent recogniser written from the grammar in the property statement / time_zone_posix.h.", min_eval=500000)
 
 # C10 always runs in the sanitizer build: the sanitizer is its oracle.
 CHECKS["C10"]["steps"] = lambda tier: [{"harness": "zone_conf", "args": []}]
